@@ -11,11 +11,12 @@ ID = "C17"
 RULE = (
     "case = feature file assembled from a grammar (languagesystem statements, class definitions, named lookups, GSUB features incl. lookupflag / mark filtering, "
     "hand-written kern / mark / mkmk / curs / abvm / blwm blocks with the '# Automatic Code' marker at the top, middle, bottom, alone, directly before the single last rule, "
-    "mis-cased or absent, comments, optional table GDEF with glyph classes and/or ligature carets by position / by index) on a fixed font that gives every writer work (Latin, Arabic, Devanagari glyphs with top/bottom/cursive anchors, "
+    "mis-cased or absent, nested in a lookup, empty blocks, one tag split over two blocks (marker in one), comments, optional table GDEF with glyph classes and/or ligature carets by position / by index) on a fixed font that gives every writer work (Latin, Arabic, Devanagari glyphs with top/bottom/cursive anchors, "
     "kerning) x writer list (default | lib-specified | explicit with ellipsis | append mode | explicit list with a harness-defined GSUB writer placed last) x {ufoLib2, defcon}; "
     "oracle = debug feature file parsed back with feaLib: the user's non-comment statements form a subsequence of the output (same block path, kind and text); GSUB bytes "
     "identical with writers on and off; a hand-written feature without marker is neither duplicated nor changed in GPOS; with a marker the generated statements of that "
-    "feature lie between the user's statements before and after the marker; every GSUB writer runs before every other writer. Non-trivial = a hand-written GPOS feature has a "
+    "feature lie between the user's statements before and after the marker (a marker-only block is replaced where it stands; as much is generated as without a marker-less twin block); "
+    "a hand-written abvm / blwm / kern / dist leaves its sibling feature as it is generated without the hand-written block; every GSUB writer runs before every other writer. Non-trivial = a hand-written GPOS feature has a "
     "marker that is not at the edge of its block, or a sibling feature of the same writer is hand-written without marker. Distinct = case hash."
 )
 ASSUMPTIONS = [
